@@ -84,7 +84,7 @@ NATIVE = {
     'c02n': {'tags': ['C02'], 'enum': 'byte_families::fam_c02', 'check': 'run_c02(c)', 'n': 600000, 'family': 'every ABI structure decoded from buffers <= 80 bytes at offsets 0..8 and past the end, both classes and byte orders, against the layout table'},
     'c16n': {'tags': ['C16'], 'panic_props': ['C01'], 'enum': 'term_oracle::enumerate_term', 'check': 'term_oracle::check_term(c)', 'n': 140000, 'family': 'adversarial link structures of < 300 bytes: SysV chains with cycles / self-loops / out-of-range links, GNU chains without stop bit, VerNeed / VerDef records with next = 0 / overlapping / huge and counts up to u64::MAX, random notes and entry tables; clauses: returns within 3 s, at most one item per byte, at most the declared count'},
     'c19n': {'tags': ['C19'], 'panic_props': [], 'enum': 'c19_gen::enumerate_c19', 'check': 'c19_gen::check_c19(c)', 'n': 3000, 'family': 'every constant of the reference table that elf::abi exports; every to_str function over its whole domain (u8 / u16) or over all constant values, their neighbours and 3000 pseudo-random values (u32 / u64 / i64); the to_string variants against to_str / the fallback text'},
-    'c01n': {'tags': [], 'panic_props': ['C01'], 'enum': 'c01_oracle::enumerate_c01', 'check': 'c01_oracle::check_c01(c)', 'n': 200000, 'family': 'a complete small ELF object (both classes and byte orders: dynsym, versym / verneed / verdef, SysV and GNU hash, dynamic, note, rel / rela, symtab, a compressed section, three segments) with 1-3 header fields (section header, program header, ELF header) set to boundary values (0, 1, 2, 2^31, 2^32-1, 2^63, 2^64-1, 2^64-8, file length +-1, ...), sometimes truncated or with a flipped bit; every public accessor of ElfBytes called and every table / iterator / lookup walked; clause: no panic'},
+    'c01n': {'no_scale': True, 'tags': [], 'panic_props': ['C01'], 'enum': 'c01_oracle::enumerate_c01', 'check': 'c01_oracle::check_c01(c)', 'n': 200000, 'family': 'a complete small ELF object (both classes and byte orders: dynsym, versym / verneed / verdef, SysV and GNU hash, dynamic, note, rel / rela, symtab, a compressed section, three segments) with 1-3 header fields (section header, program header, ELF header) set to boundary values (0, 1, 2, 2^31, 2^32-1, 2^63, 2^64-1, 2^64-8, file length +-1, ...), sometimes truncated or with a flipped bit; every public accessor of ElfBytes called and every table / iterator / lookup walked; clause: no panic'},
     'c13n': {'panic_props': ['C13', 'C01'], 'enum': 'slice_oracle::enumerate_symver', 'check': 'slice_oracle::check_symver(c)', 'n': _n('VERIF_SYMVER_CASES', '300000'),
              'family': 'version sections from kani/replay_src/slice_oracle.rs::enumerate_symver: 1-4 versym entries, 0-3 verneed records with one auxiliary record each, 0-3 verdef records, forward/zero/out-of-range links, hidden bits, unreadable strings; get_requirement/get_definition against a reference resolution'},
 }
@@ -317,11 +317,16 @@ def native_batch(harnesses, timeout=420, prop=None):
     finally:
         shutil.rmtree(tmp, ignore_errors=True)
 
-def search_native(harness, timeout=420, tmp_shared=None, prop=None):
+def search_native(harness, timeout=420, tmp_shared=None, prop=None, scale=1, seed=None):
     tmp = tmp_shared or tempfile.mkdtemp(prefix='verif_replay_')
     try:
         if not tmp_shared: setup(tmp)
-        nv = NATIVE[harness]
+        nv = dict(NATIVE[harness])
+        # the thorough tier enumerates a larger family under a second seed (same generator, same clauses)
+        SEED = STREAM_SEED if seed is None else seed
+        if nv.get('no_scale'): scale = 1
+        nv['n'] = nv['n'] * scale
+        nv['bound'] = '%d pseudo-random cases (seed %d): %s; native enumeration, not Kani' % (nv['n'], SEED, nv['family'])
         os.makedirs(os.path.join(tmp, 'src', 'bin'), exist_ok=True)
         open(os.path.join(tmp, 'src', 'bin', 'native_search.rs'), 'w').write('''use elf_verif_replay::*;
 const TAGS: &[&str] = &[%s];
@@ -354,7 +359,7 @@ fn main() {
     }
     println!("NONE");
 }
-''' % (', '.join('"%s"' % t for t in nv.get('tags', [])), ', '.join('"%s"' % t for t in nv.get('panic_props', [t_ for t_ in nv.get('tags', []) if t_ != 'C16'] + ['C01'])), nv['enum'], nv['n'], STREAM_SEED, nv['check']))
+''' % (', '.join('"%s"' % t for t in nv.get('tags', [])), ', '.join('"%s"' % t for t in nv.get('panic_props', [t_ for t_ in nv.get('tags', []) if t_ != 'C16'] + ['C01'])), nv['enum'], nv['n'], SEED, nv['check']))
         # optimised, but WITH overflow checks and debug assertions: an arithmetic overflow must panic as it does in a debug build (C01)
         env = dict(os.environ, CARGO_NET_OFFLINE='true', CARGO_TARGET_DIR=os.path.join(tmp, 'target'), RUSTFLAGS='-Awarnings -C overflow-checks=on -C debug-assertions=on', VERIF_ORACLE_PROP=prop or '')
         t0 = time.time()
@@ -373,12 +378,12 @@ fn main() {
             return {'status': 'no-counterexample-within-bound' if 'NONE' in out else 'search-failed', 'bound': bound, 'wall_s': wall, 'tail': out[-600:] if 'NONE' not in out else ''}
         idx = int(m.group(1))
         mc = re.search(r'^CASE (.*)$', out, re.M)
-        case = {'family': nv['enum'], 'cases': nv['n'], 'seed': STREAM_SEED, 'index': idx, 'case': (mc.group(1)[:6000] if mc else '')}
+        case = {'family': nv['enum'], 'cases': nv['n'], 'seed': SEED, 'index': idx, 'case': (mc.group(1)[:6000] if mc else '')}
         main = ('use elf_verif_replay::*;\nfn main() {\n    // case #%d of the family %s(%d, %d) -- regenerated deterministically; its contents are in the replay file\n'
                 '    let cases = %s(%d, %d);\n    let c = &cases[%d];\n    println!("CASE {:?}", c);\n'
                 '    start_monitor(5000, |_| { println!("REPLAY FAILS on the real crate: HANG: the call did not return within 5000 ms"); std::process::exit(1); });\n    begin_case(0);\n'
                 '    match guarded(|| %s) {\n        Ok(()) => println!("replay: the real crate behaves as specified on this input"),\n'
-                '        Err(e) => { println!("REPLAY FAILS on the real crate: {}", e); std::process::exit(1); }\n    }\n}\n') % (idx, nv['enum'], nv['n'], STREAM_SEED, nv['enum'], nv['n'], STREAM_SEED, idx, nv['check'])
+                '        Err(e) => { println!("REPLAY FAILS on the real crate: {}", e); std::process::exit(1); }\n    }\n}\n') % (idx, nv['enum'], nv['n'], SEED, nv['enum'], nv['n'], SEED, idx, nv['check'])
         open(os.path.join(tmp, 'src', 'bin', 'replay.rs'), 'w').write(main)
         r = subprocess.run(['cargo', 'run', '--offline', '-q', '--release', '--bin', 'replay'], cwd=tmp, env=env, capture_output=True, text=True, timeout=600)
         panicked = r.returncode not in (0, 1) and 'panicked at' in r.stderr
@@ -389,8 +394,8 @@ fn main() {
     finally:
         if not tmp_shared: shutil.rmtree(tmp, ignore_errors=True)
 
-def search(harness, timeout=420, prop=None):
-    if harness in NATIVE: return search_native(harness, timeout, None, prop)
+def search(harness, timeout=420, prop=None, scale=1, seed=None):
+    if harness in NATIVE: return search_native(harness, timeout, None, prop, scale, seed)
     tmp = tempfile.mkdtemp(prefix='verif_replay_')
     try:
         hs = setup(tmp)
